@@ -348,7 +348,10 @@ def check_run_worker(ctx):
             ok = True
         elif isinstance(p, ast.Return):
             ok = True
-        args_ok = len(c.args) >= 2 and canon(c.args[0]) == "worker" and canon(c.args[1]) == "tasks"
+        t_res = flow.resolve(c.args[1], at=A.enclosing_stmt(c)) if len(c.args) >= 2 else None
+        args_ok = len(c.args) >= 2 and canon(c.args[0]) == "worker" and t_res is not None and any(isinstance(x, ast.Call) and A.call_name(x) == "batch_tasks" for x in ast.walk(t_res)) or \
+            (len(c.args) >= 2 and canon(c.args[0]) == "worker" and isinstance(c.args[1], ast.Name) and any(
+                isinstance(s_, ast.Assign) and canon(s_.targets[0]) == c.args[1].id and isinstance(s_.value, ast.Call) and A.call_name(s_.value) == "batch_tasks" for s_ in A.walk_local(fn)))
         if not args_ok:
             ok, why = False, "pool.map(%s) does not map `worker` over `tasks`" % ", ".join(A.unparse(a) for a in c.args)
     ctx.check(R, fn, "results in pool.map order", ok, why, key="order")
